@@ -26,6 +26,7 @@ META = {
 
 QUICK_KINDS = [('rows', False, None), ('retry', 1, 'ReadTimeout'), ('retry', 2, 'Unavailable')]
 USE_KINDS = [('setks', None, None), ('rows', False, None)]
+SHUT_KINDS = [('schema', None, None), ('retry', 1, 'ConnShutdown'), ('rows', False, None)]
 FULL_KINDS = [('rows', False, None), ('rows', True, None), ('retry', 0, 'WriteTimeout'), ('retry', 1, 'ReadTimeout'),
               ('retry', 2, 'Unavailable')]
 
@@ -115,6 +116,11 @@ def histories(ctx):
         for ops in G.enumerate_orderings(cfg, kinds, depth, budget, allow_nextpage=np):
             yield (cfg, ops, False, 'exhaustive')
         capped = capped or G.enumerate_orderings.capped
+    # Session.shutdown() at any point after the send, orderings of schema-change / ConnectionShutdown / rows answers
+    cfg = {'plan': [1, 2, 3], 'timeout': 1000, 'specs': [100], 'pools': {1: 'ok', 2: 'ok', 3: 'ok'}, 'now': 0}
+    for ops in G.enumerate_orderings(cfg, SHUT_KINDS, 8 if ctx.tier == 'quick' else 10, 20000, allow_nextpage=False, shutdown_at=2):
+        yield (cfg, ops, False, 'exhaustive')
+    capped = capped or G.enumerate_orderings.capped
     ctx.exhaustive = not capped
     n = 600 if ctx.tier == "quick" else 8000
     for _ in range(n):
